@@ -41,7 +41,24 @@ func woHeaderShapeFor(fork string) Shape {
 	return sh
 }
 
+// someTx builds the i-th body transaction of an instantiation (memoised: signing dominates the run time,
+// and body transactions are only ever compared by hash).
+var someTxMemo = map[string]*types.Transaction{}
+
 func someTx(g *Gen, i int) *types.Transaction {
+	key := fmt.Sprintf("%d|%s|%d", g.Seed, g.Type, i)
+	if tx, ok := someTxMemo[key]; ok {
+		return tx
+	}
+	tx := someTxBuild(g, i)
+	if len(someTxMemo) > 200000 {
+		someTxMemo = map[string]*types.Transaction{}
+	}
+	someTxMemo[key] = tx
+	return tx
+}
+
+func someTxBuild(g *Gen, i int) *types.Transaction {
 	sub := &Gen{Seed: g.Seed*1000 + int64(i), Type: g.Type + "/tx"}
 	switch i % 3 {
 	case 0:
@@ -331,8 +348,8 @@ func init() {
 				}
 				return wo, nil
 			}},
-		{Name: "json",
-			Enc: func(v interface{}) ([]byte, error) { return json.Marshal(v.(*types.WorkObject)) },
+		{Name: "rpcjson", // server side RPCMarshalWorkObject, client side UnmarshalJSON
+			Enc: func(v interface{}) ([]byte, error) { return json.Marshal(v.(*types.WorkObject).RPCMarshalWorkObject("v2")) },
 			Dec: func(b []byte, loc common.Location) (interface{}, error) {
 				wo := new(types.WorkObject)
 				if err := json.Unmarshal(b, wo); err != nil {
